@@ -53,11 +53,22 @@ def main():
     with cf.ThreadPoolExecutor(max_workers=jobs) as ex:
         for name, res in ex.map(lambda m: one(pid, m), muts):
             results.append((name, res)); print("%-58s %s" % (name, res), flush=True)
-    if not only:
-        os.makedirs(os.path.join(VERIF, "sensitivity", "results"), exist_ok=True)
-        with open(os.path.join(VERIF, "sensitivity", "results", pid + ".txt"), "w") as f:
-            for n, r in results:
-                f.write("%-58s %s\n" % (n, r))
+    # merge into the results file (by mutation name, keeping the definition order)
+    os.makedirs(os.path.join(VERIF, "sensitivity", "results"), exist_ok=True)
+    rp = os.path.join(VERIF, "sensitivity", "results", pid + ".txt")
+    allnames = [m["name"] for m in json.load(open(os.path.join(VERIF, "sensitivity", pid + ".json")))]
+    old = {}
+    if os.path.exists(rp):
+        for line in open(rp):
+            for n in allnames:
+                if line.startswith("%-58s " % n) or line.startswith(n + " "):
+                    old[n] = line.rstrip("\n")[len("%-58s " % n):] if line.startswith("%-58s " % n) else line.rstrip("\n")[len(n) + 1:]
+    for n, r in results:
+        old[n] = r
+    with open(rp, "w") as f:
+        for n in allnames:
+            if n in old:
+                f.write("%-58s %s\n" % (n, old[n]))
     return 0
 
 if __name__ == "__main__":
